@@ -556,8 +556,18 @@ class Exprs:
     def local(self, l, depth, stack):
         fn = self.fn
         if 1 <= l <= fn["argc"]:
-            # parameters can be reassigned, but in practice are not; keep the param atom
-            return Ex("param", l - 1)
+            ds = self.defs.get(l, [])
+            if not ds or depth > self.max_depth or l in stack:
+                return Ex("param", l - 1)
+            # a `mut` parameter that the body reassigns (`height = height_accepted + 1` in a loop): the parameter or any of the assigned values
+            stack = stack + (l,)
+            outs = [Ex("param", l - 1)]
+            for kind, bi, x in ds[:6]:
+                outs.append(self.rvalue(x, depth + 1, stack) if kind == "st" else self.call(x, depth + 1, stack))
+            uniq = {}
+            for o in outs:
+                uniq[render(o)] = o
+            return list(uniq.values())[0] if len(uniq) == 1 else Ex("phi", None, list(uniq.values()))
         if depth > self.max_depth or l in stack:
             return Ex("local", l)
         ds = self.defs.get(l, [])
